@@ -180,7 +180,36 @@ M = [
 ]
 
 
+# edits that are equivalent under the properties' input assumptions: every check must stay SILENT on them
+EQUIV = [
+ ("C10", "stream_sign", CP, '    if row["stream"] < 0:\n        return "cpu_bound"', '    if row["stream"] <= 0:\n        return "cpu_bound"', "device stream ids are positive: stream 0 never occurs"),
+ ("C12", "host_mask_le", TR, 'df.loc[df["stream"].lt(0), "iteration"]', 'df.loc[df["stream"].le(0), "iteration"]', "device stream ids are positive"),
+ ("C17", "added_ge", TD, '"added": df.loc[df[col_control].eq(0) & df[col_test].gt(0)].index.tolist(),', '"added": df.loc[df[col_control].eq(0) & df[col_test].ge(0)].index.tolist(),', "a name absent from both traces has no row"),
+ ("C04", "merge_ge", U, 'kernel_df["ts"] > kernel_df["end"].shift().cummax()', 'kernel_df["ts"] >= kernel_df["end"].shift().cummax()', "touching intervals: same measure whether merged or not"),
+ ("C04", "merge_first_ts", U, '.agg({"ts": "min", "end": "max"})', '.agg({"ts": "first", "end": "max"})', "rows are ts-sorted: first == min"),
+ ("C04", "device_gt0", BA, '            gpu_kernels = trace_df[trace_df["stream"].ne(-1)].copy()\n            idle_time, kernel_time', '            gpu_kernels = trace_df[trace_df["stream"].gt(0)].copy()\n            idle_time, kernel_time', "device stream ids are positive"),
+ ("C14", "stable_single_key", TC, '.sort_values(by=["ts", "queue"], ascending=[True, False], kind="stable")', '.sort_values(by="ts", kind="stable")', "stable sort over the launches-first concat keeps launches before activities"),
+ ("C09", "default_weight_key", CP, 'self.critical_path_nodes = nx.dag_longest_path(self, weight="weight")', 'self.critical_path_nodes = nx.dag_longest_path(self)', "networkx' default weight key is 'weight'"),
+ ("C03", "loop_truthiness", OS_, "                if len(stack) > 0:\n                    ev = stack.pop(-1)", "                if stack:\n                    ev = stack.pop(-1)", "same guard"),
+ ("C18", "loc_vs_getitem", TF, 'return df.loc[df["rank"].isin(self.ranks)]', 'return df[df["rank"].isin(self.ranks)]', "same selection"),
+ ("C02", "ne_minus1_operator", TR, 'df["correlation"].ne(-1), ["index", "correlation", "stream", "name"]', 'df["correlation"] != -1, ["index", "correlation", "stream", "name"]', "operator form"),
+ ("C06", "sort_stable", BA, 'gpu_kernels[gpu_kernels.stream == stream].copy().sort_values(by="ts")', 'gpu_kernels[gpu_kernels.stream == stream].copy().sort_values(by="ts", kind="stable")', "sort kind is irrelevant for non-overlapping kernels"),
+ ("C15", "clip_where", CK, 'joined_df["launch_delay"] = joined_df["launch_delay"].clip(lower=0)', 'joined_df["launch_delay"] = joined_df["launch_delay"].where(joined_df["launch_delay"] > 0, 0)', "same function"),
+]
+
+
 def main():
+    eq_root = os.path.join(HERE, "sa", "selftest", "equivalent")
+    for pid, name, rel, old, new, why in EQUIV:
+        src = open(os.path.join(REPO, rel)).read()
+        if src.count(old) != 1:
+            print("equiv skipped", pid, name, src.count(old))
+            continue
+        mutated = src.replace(old, new)
+        compile(mutated, rel, "exec")
+        d = os.path.join(eq_root, pid)
+        os.makedirs(d, exist_ok=True)
+        open(os.path.join(d, name + ".diff"), "w").write("".join(difflib.unified_diff(src.splitlines(True), mutated.splitlines(True), "a/" + rel, "b/" + rel)))
     out_root = os.path.join(HERE, "sa", "selftest", "mutants")
     made, skipped = 0, []
     index = []
